@@ -39,6 +39,10 @@ def placements(rng, cls, n):
     return out
 
 
+# four-man classes in which no capture can let a mate outlive the root's 50-move window: a lone king against minor pieces only
+# (whatever the king captures, the rest cannot mate), so the window counted from the root clock is exact as for three men
+STRICT4 = ("BN", "BB", "NN")
+
 # roots of other four-man material for searches that are stopped while their table is being generated
 ABORT_ROOTS = ["8/8/8/3k4/8/2r5/8/KQ6 w - - 0 1", "8/8/4k3/8/2b5/8/1R6/K7 w - - 0 1", "7k/8/8/8/3n4/8/R7/K7 b - - 0 1", "8/8/8/3k4/8/8/1Q6/KR6 w - - 0 1",
                "6k1/8/8/8/8/1q6/8/K2Q4 b - - 0 1", "8/8/8/4k3/8/2B5/3N4/K7 w - - 0 1"]
@@ -140,7 +144,7 @@ def run(ctx):
         if o != exp:
             ctx.violation(f"on-demand probe model disagrees with the property's wording for dtm={d} ply={p} hmc={h}: {o} vs {exp}", {"kind": "model", "input": [d, p, h]}, no_input=True); break
     # positions
-    classes = CLASSES3 + (["Qr"] + r.sample([c for c in CLASSES4 if c != "Qr"], 2) if quick else CLASSES4)
+    classes = CLASSES3 + (["Qr", "BN"] + r.sample([c for c in CLASSES4 if c not in ("Qr", "BN")], 1) if quick else CLASSES4)
     per = 14 if quick else 250
     hmcs = [0, 0, 30, 60, 80, 90, 95, 98, 99]
     sessions = []
@@ -158,7 +162,7 @@ def run(ctx):
             if k not in seen or v == "none": continue
             if k == "draw" and seen["draw"] >= per // 3: continue
             seen[k] += 1
-            if len(cls) == 1 and k != "draw" and r.random() < 0.6:
+            if (len(cls) == 1 or cls in STRICT4) and k != "draw" and r.random() < 0.6:
                 # three men: no capture can prolong a win, so the 50-move window is exact — probe both sides of the boundary
                 plies = 2 * int(v.split()[1]) - (1 if k == "win" else 0)
                 t = f.split(); t[4] = str(min(99, max(0, (100 if r.random() < 0.5 else 101) - plies))); f = " ".join(t)      # the property quantifies over clocks 0..99
@@ -205,7 +209,9 @@ def audit(ctx, vh, recs):
             ctx.violation(f"no exact score reported for `{rec['fen']}`", base); continue
         shown = f"mate {last['score']}" if last.get("score_kind") == "mate" else "nomate"
         men = sum(1 for c in rec["fen"].split()[0] if c.isalpha())
-        if shown != rec["expect"] and rec["expect"] == "nomate" and men == 4 and shown.startswith("mate") and rec["value"] != "draw":
+        minors_only = men == 4 and sorted(c.lower() for c in rec["fen"].split()[0] if c.isalpha() and c.lower() != "k") in (["b", "n"], ["b", "b"], ["n", "n"]) and \
+            len({c.isupper() for c in rec["fen"].split()[0] if c.isalpha() and c.lower() != "k"}) == 1
+        if shown != rec["expect"] and rec["expect"] == "nomate" and men == 4 and not minors_only and shown.startswith("mate") and rec["value"] != "draw":
             # The distance to mate does not fit the 50-move window counted from the root clock, but with four men a capture
             # inside the line resets the clock (e.g. Kxq, then K+Q v K is still mated in time).  Such an announcement is accepted
             # iff it is not shorter than the exact distance, has the right sign, and its PV is a legal line that ends in
